@@ -98,7 +98,13 @@ type Lemma struct {
 	Flags    map[string]bool
 }
 
+// GlobalClause: a package-level variable that a named configuration API may mutate (everything else may not).
+type GlobalClause struct {
+	Pkg, Var, Mutator, Because string
+}
+
 type Contracts struct {
+	Globals []GlobalClause
 	Funcs  map[string]*FuncContract // by Key()
 	Specs  map[string]*SpecFunc     // by name (global) and pkg.name
 	Lemmas []*Lemma
@@ -120,7 +126,7 @@ var (
 )
 
 var clauseKeywords = map[string]bool{"func": true, "spec": true, "lemma": true, "property": true, "ghost": true, "requires": true,
-	"ensures": true, "loop": true, "invariant": true, "decreases": true, "flags": true, "bind": true, "callsite": true, "let": true, "hint": true, "noread": true, "cache": true, "mustread": true}
+	"ensures": true, "loop": true, "invariant": true, "decreases": true, "flags": true, "bind": true, "callsite": true, "let": true, "hint": true, "noread": true, "cache": true, "mustread": true, "global": true}
 
 func parseParams(s string) ([]Param, error) {
 	s = strings.TrimSpace(s)
@@ -362,6 +368,17 @@ func (cs *Contracts) ParseFile(path, pkgName string) error {
 				return err
 			}
 			curLoop.Decreases = &c
+		case "global":
+			fs := strings.Fields(rest)
+			if len(fs) < 3 || fs[1] != "mutator" {
+				return fail(l, "bad global clause %q (want: global <var> mutator <func> because <text>)", t)
+			}
+			because := ""
+			if k := strings.Index(rest, " because "); k >= 0 {
+				because = strings.TrimSpace(rest[k+9:])
+			}
+			cs.Globals = append(cs.Globals, GlobalClause{Pkg: pkgName, Var: fs[0], Mutator: fs[2], Because: because})
+			curF, curL, curLoop = nil, nil, nil
 		case "mustread":
 			if curF == nil {
 				return fail(l, "mustread outside func")
